@@ -488,6 +488,54 @@ example : (URL.navigateWith true exBaseSemi (URL.ofRelRef ⟨none, none, [], som
     (URL.navigateWith false exBaseSemi (URL.ofRelRef ⟨none, none, [], some ";".toList, none⟩)).query
       = exBaseSemi.query := by decide
 
+/-! ### the reference as a TEXT (the string argument of `navigate`) -/
+
+/-- `t` is, by RFC 3986 Appendix B (`rfcParse`, Spec), a reference without scheme and without authority -/
+def RelText (t : Str) : Prop := (rfcParse t).scheme = none ∧ (rfcParse t).authority = none
+
+instance (t : Str) : Decidable (RelText t) := by unfold RelText; infer_instance
+
+/-- for such a text the Appendix B components are the ones `URL(text)` finds in the model (`refOfText`: the
+    fragment starts at the first `#`, the query at the first `?` before it), and they recompose to the text -/
+theorem ref_text_parse (t : Str) (h : RelText t) :
+    rfcParse t = refOfText t ∧ recompose (rfcParse t) = t ∧ RelRef (rfcParse t) := by
+  have e := rfcParse_rel t h.1 h.2
+  exact ⟨e, by rw [e]; exact recompose_refOfText t, h⟩
+
+example : RelText "../g;x=1/./y?k=1&k#frag?x".toList ∧ ¬ RelText "g:h".toList ∧ ¬ RelText "//g".toList ∧
+    RelText "./g:h".toList ∧ RelText "?#".toList ∧ RelText [] := by decide
+example : rfcParse "http://u@h:1/p?q#f".toList =
+    ⟨some "http".toList, some "u@h:1".toList, "/p".toList, some "q".toList, some "f".toList⟩ := by decide
+
+/-- **navigate(text) = RFC 5.2 on the text's Appendix B components**, repaired code, every reference text without
+    scheme and authority: path-absolute, path-relative with any mix of '.', '..' and empty segments, query-only
+    (`?`, `?y`), fragment-only, empty -/
+theorem navigate_text_eq_rfc_repaired (b : URL) (t : Str) (hb : AbsBase b) (ht : RelText t)
+    (hdf : (rfcParse t).path ≠ [] ∨ DotFree b.parts) (hcq : CanonQ (rfcParse t).query) :
+    (URL.navigateWith true b (URL.ofText t)).toRef.canon = (resolve b.toRef (rfcParse t)).canon := by
+  have e := (ref_text_parse t ht).1
+  unfold URL.ofText
+  rw [← e]
+  exact navigate_eq_rfc_repaired b (rfcParse t) hb ht hdf hcq
+
+/-- ... and for the code under test whichever version it is, outside the `?`-region -/
+theorem navigate_text_eq_rfc_partial (b : URL) (t : Str) (hb : AbsBase b) (ht : RelText t)
+    (hdf : (rfcParse t).path ≠ [] ∨ DotFree b.parts) (hcq : CanonQ (rfcParse t).query)
+    (hq : ¬ ((rfcParse t).path = [] ∧ (rfcParse t).query = some [] ∧ queryText b.query ≠ [])) :
+    (b.navigate (URL.ofText t)).toRef.canon = (resolve b.toRef (rfcParse t)).canon := by
+  have e := (ref_text_parse t ht).1
+  unfold URL.ofText
+  rw [← e]
+  exact navigate_eq_rfc_partial b (rfcParse t) hb ht hdf hcq hq
+
+example : RelText ".././/g/.?y#".toList ∧ CanonQ (rfcParse ".././/g/.?y#".toList).query ∧
+    (rfcParse ".././/g/.?y#".toList).path ≠ [] := by decide
+example : (URL.navigateWith true exBase (URL.ofText ".././/g/.?y#".toList)).toText = "http://u@a:81/b//g/?y".toList := by
+  decide
+example : (URL.navigateWith true exBaseMulti (URL.ofText "?".toList)).toText = "http://a/b/c".toList ∧
+    (URL.navigateWith false exBaseMulti (URL.ofText "?".toList)).toText = "http://a/b/c?tag=x&page=2&tag=y".toList := by
+  decide
+
 /-! ### navigate's glue: which component comes from where (any base, any non-replacing reference, either version) -/
 
 /-- the fragment is never inherited: the result carries the reference's fragment (none if it has none) -/
